@@ -353,7 +353,11 @@ func pinTok(p *api.Pin, w *expWindow) string {
 
 // storedMode is the mode the pin has after the state's protobuf encoding.
 func storedMode(p *api.Pin) string {
-	b, err := p.ProtoMarshal()
+	// the allocations have no bearing on the stored mode; the add endpoint's recording BlockAllocate
+	// answers [""] (the local peer), which the protobuf decoder rejects
+	cp := *p
+	cp.Allocations = nil
+	b, err := cp.ProtoMarshal()
 	if err != nil {
 		return "x"
 	}
